@@ -173,7 +173,7 @@ def printed_json(result):
 # ---------------------------------------------------------------------------------------------
 # batched trace validation
 
-def validate_traces(trace_module, cfg, traces, workdir=None, timeout=1800, specdir=SPECS, env=None, heap="6g"):
+def validate_traces(trace_module, cfg, traces, workdir=None, timeout=1800, specdir=SPECS, env=None, heap="6g", dfs_queue=False):
     """traces: list of lists of event dicts.  Writes one JSON file, runs TLC once (-workers 1),
     returns (TLCResult, rejected) where rejected = {trace index (0-based): (line reached (1-based), reason)}.
     The trace module must follow the convention of specs/TraceBase: registers TLCSet(i, max line), the
@@ -185,7 +185,7 @@ def validate_traces(trace_module, cfg, traces, workdir=None, timeout=1800, specd
     e = {"TRACE_FILE": path}
     if env: e.update(env)
     try:
-        r = run(trace_module, cfg, workers=1, env=e, timeout=timeout, specdir=specdir, cont=True, heap=heap)
+        r = run(trace_module, cfg, workers=1, env=e, timeout=timeout, specdir=specdir, cont=True, heap=heap, dfs_queue=dfs_queue)
     finally:
         if not os.environ.get("VERIF_KEEP_TRACES"):
             try: os.unlink(path)
